@@ -69,9 +69,8 @@ def post_LEVINSON(r, order, allow_singularity, result):
     if A.shape != (M,) or k.shape != (M,):
         c.fail('LEVINSON:lengths', {'len_a': list(A.shape), 'len_k': list(k.shape), 'order': M}, feats)
         return
-    if not cplx:
-        c.require('LEVINSON:real-in-real-out', np.isrealobj(A) and np.isrealobj(k) and np.isrealobj(P),
-                  {'dtypes': [str(A.dtype), str(k.dtype)]}, feats)
+    if not cplx and not (np.isrealobj(A) and np.isrealobj(k) and np.isrealobj(P)):
+        c.count('observation:LEVINSON-complex-dtype-for-real-input')          # dtype is not in the statement
     rr = np.array(ra[:M + 1], dtype=complex)
     rr[0] = r0
     T = refs.herm_toeplitz(rr)
